@@ -143,13 +143,25 @@ class Formatter(FormatterInterface):
         rhs = self(oper.rhs)
 
         # Apply parentheses
-        if oper.lhs.precedence >= oper.precedence:
+        if self._needs_parentheses(oper, oper.lhs):
             lhs = f"({lhs})"
-        if oper.rhs.precedence >= oper.precedence:
+        if self._needs_parentheses(oper, oper.rhs):
             rhs = f"({rhs})"
 
         # Return combined string
         return f"{lhs} {oper.op} {rhs}"
+
+    @staticmethod
+    def _needs_parentheses(oper: L.BinOp, arg: L.LExpr) -> bool:
+        """Check if an operand of a binary operation has to be parenthesised in Python."""
+        if arg.precedence >= oper.precedence:
+            return True
+        # Unlike in C, "not" binds looser than comparison and arithmetic operators
+        if isinstance(arg, L.Not):
+            return True
+        # and comparison operators chain: a == b < c means (a == b) and (b < c)
+        comparisons = (L.EQ, L.NE, L.LT, L.GT, L.LE, L.GE)
+        return isinstance(oper, comparisons) and isinstance(arg, comparisons)
 
     @__call__.register(L.Neg)
     @__call__.register(L.Not)
